@@ -144,6 +144,10 @@ def run_weak(chk, spec):
 		"peek-non-string-names": lambda: Table([Vector([1, 2], name=2023), Vector([3, 4], name=(1, 2)), Vector(["a", "b"], name=None), Vector([5, 6], name=2.5)]).peek(),
 		"peek-args": lambda: Table([Vector(list(vals) or [1], name=7), Vector(list(vals) or [1], name="s")]).peek(2),
 		# instances of a subclass of a NARROWER kind in a wider column (inference puts them there): they belong, and go back in
+		"datetime-subclass-only": lambda: Vector([V.Stamp(2020, 1, 1 + i % 5, 5) for i in range(max(n, 1))]),
+		"datetime-subclass-next-to-date": lambda: Vector([V.D0, V.Stamp(2020, 1, 2, 5)]),
+		"datetime-subclass-written-into-date": lambda: (lambda d: (d.__setitem__(0, V.Stamp(2020, 1, 2, 5)), d)[1])(Vector([V.D0, V.D0])),
+		"datetime-subclass-sorted-aggregated": lambda: Table({"k": [1, 1, 2], "s": [V.Stamp(2020, 1, 3, 5), V.Stamp(2020, 1, 1, 5), V.Stamp(2020, 1, 2, 5)]}).sort_by("s").aggregate(over="k", max_over="s"),
 		"subclass-int-in-float": lambda: Vector([1.5, V.MyInt(2), 2.5][:max(2, min(n, 3))]),
 		"subclass-int-in-complex": lambda: Vector([V.MyInt(2), 1j]),
 		"subclass-date-in-datetime": lambda: Vector([datetime(2020, 1, 1, 5), V.Day(2020, 1, 2)]),
@@ -353,7 +357,7 @@ RUNNERS = {"rows": run_rows, "unusual": run_unusual, "weak": run_weak, "assign":
 
 WEAK_OPS = ["radd-scalar", "radd-list", "rsub-scalar", "rmul-scalar", "rtruediv", "rpow", "add-wider-scalar", "add-wider-vector", "neg", "pos", "abs", "invert",
 	"lshift-wider", "lshift-none", "lshift-str", "lshift-list-mixed", "lshift-vector", "rlshift", "cast-str", "cast-float", "cast-int", "cast-bool", "cast-callable", "cast-date-from-iso", "cast-datetime-from-iso", "cast-date-of-dates", "cast-date-of-datetimes", "cast-datetime-of-dates", "promoted-date-plus-int", "promoted-date-plus-intvec", "promoted-date-minus-timedelta", "promoted-int-abs", "promoted-int-neg",
-	"promoted-int-invert-free", "lshift-operand-widened-by-inference", "lshift-operand-bool-then-int", "lshift-operand-date-then-datetime", "lshift-nullable-operand", "table-lshift-table-widened", "huge-int-in-float", "huge-int-into-float", "huge-int-in-complex", "peek-non-string-names", "peek-args", "zero-plus-bool", "subclass-int-in-float", "subclass-int-in-complex", "subclass-date-in-datetime", "subclass-int-written-into-float", "subclass-int-next-to-wider-in-one-write", "bit-lshift-scalar", "bit-rshift-vector", "bit-lshift-bool", "list-matmul-table", "renamed-deprecated", "false-plus-bool", "sum-of-bool-vectors", "zero-plus-numeric-holding-bool", "new-empty", "new-empty-typesafe",
+	"promoted-int-invert-free", "lshift-operand-widened-by-inference", "lshift-operand-bool-then-int", "lshift-operand-date-then-datetime", "lshift-nullable-operand", "table-lshift-table-widened", "huge-int-in-float", "huge-int-into-float", "huge-int-in-complex", "peek-non-string-names", "peek-args", "zero-plus-bool", "datetime-subclass-only", "datetime-subclass-next-to-date", "datetime-subclass-written-into-date", "datetime-subclass-sorted-aggregated", "subclass-int-in-float", "subclass-int-in-complex", "subclass-date-in-datetime", "subclass-int-written-into-float", "subclass-int-next-to-wider-in-one-write", "bit-lshift-scalar", "bit-rshift-vector", "bit-lshift-bool", "list-matmul-table", "renamed-deprecated", "false-plus-bool", "sum-of-bool-vectors", "zero-plus-numeric-holding-bool", "new-empty", "new-empty-typesafe",
 	"fillna-same", "fillna-wider", "fillna-none", "fillna-integral-wider", "lshift-vector-none", "lshift-vector-same", "and-int", "or-vector", "xor-list",
 	"new-equal-narrower-first", "agg-stdev", "win-stdev", "dropna", "isna", "unique", "sort", "to_object", "T", "slice", "mask", "pluck", "new", "new-typesafe", "new-none-typesafe", "new-none", "isinstance",
 	"compare", "matmul-table", "table-sum", "table-max", "table-mean"]
